@@ -23,7 +23,7 @@ def genFixes : Fixes :=
     checkBeforePurge := Gen.C02Recv.checkBeforePurge }
 
 structure St where
-  cfg : Cfg := { prefixes := Gen.C01Ssdp.ssdpPrefixes, trk := C03.genCfg }
+  cfg : Cfg := { prefixes := Gen.C01Ssdp.ssdpPrefixes, trk := { C03.genCfg with tMax := C02.dtMax } }
   desync : Bool := false   -- the model's tracker state is no longer the implementation's (unmodelled value / raise earlier in the case)
   tr : Tracker := {}
   -- pending model outcome of the last `dg`
@@ -31,13 +31,14 @@ structure St where
   pendClass : Option Dispatch := none
   pendUnk : Bool := false
   pendEp : Option Endpoint := none
+  pendMay : Bool := false
   corrOk : Bool := true
   judgeOk : Bool := true
   notes : List String := []
 
 def note (st : St) (s : String) : St := { st with notes := st.notes ++ [s] }
 def corrFail (st : St) (s : String) : St := note { st with corrOk := false } s
-def judgeFail (st : St) (s : String) : St := note { st with judgeOk := false } s
+def judgeFail (st : St) (s : String) : St := { st with judgeOk := false, notes := s :: st.notes }
 
 def parseEp : String → Option Endpoint
   | "adv" => some .adv
@@ -85,7 +86,7 @@ def stepOp (st : St) (toks : List String) : St :=
       let devs ← parseList (parseKV tokB) (← f "devs")
       let svcs ← parseList tokB (← f "svcs")
       let always ← f "always"
-      pure { prefixes := Gen.C01Ssdp.ssdpPrefixes, trk := C03.genCfg, targetHost := (tokB tgt).getD [], rootUdn := (tokB root).getD [],
+      pure { prefixes := Gen.C01Ssdp.ssdpPrefixes, trk := { C03.genCfg with tMax := C02.dtMax }, targetHost := (tokB tgt).getD [], rootUdn := (tokB root).getD [],
              devices := devs, services := svcs, alwaysRoot := always == "1" }
     match r with
     | some c => { st with cfg := c }
@@ -106,7 +107,7 @@ def stepOp (st : St) (toks : List String) : St :=
         | .ok (some (_, h)) => if udnGuaranteeB h then st else corrFail st "interface: _udn is not the udn of the uuid USN"
         | _ => st
       { st with pendRes := some (recv genFixes st.cfg ep st.tr dat loc src now),
-                pendClass := classify st.cfg ep dat loc src now, pendUnk := unk, pendEp := some ep }
+                pendClass := classify st.cfg ep dat loc src now, pendUnk := unk, pendEp := some ep, pendMay := mayDrop st.cfg ep dat loc src now }
     | _, _, _, _, _ => corrFail st "bad dg line"
   | "eff" :: rest =>
     let f := kvs rest
@@ -129,7 +130,7 @@ def stepOp (st : St) (toks : List String) : St :=
       -- judge: the implementation's observation only
       let o : C02.Obs := ⟨(if raised = "-" then none else some raised), cb, sends, timers, before, after⟩
       -- a value outside the model (URL outside the grammar, flag x): only "no raise" is judged
-      let verdict := if st.pendUnk then o.raised.isNone else ok st.pendClass o
+      let verdict := if st.pendUnk then o.raised.isNone else ok st.pendClass o st.pendMay
       let what := if o.raised.isSome then "raised " ++ raised
                   else if st.pendClass.isSome then "well-formed-but-not-dispatched" else "dropped-but-not-inert"
       let st := if verdict then st
